@@ -55,7 +55,7 @@ def snapshot_expr(e, p0: Point) -> tuple:
     different point, so that whatever an operation left on the objects (memos included) would show"""
     ids: dict = {}
     bare = call(e.at, 1.25)
-    other = call(e.at, Point(**{k: v + 0.375 for k, v in p0._coordinates.items() if v is not None}))
+    other = call(e.at, Point(**{k: v + 0.375 for k, v in wire.coords(p0).items() if v is not None}))
     return (wire.expr(e, ids=ids), repr(e), str(e), (call(e.at, p0), other), hash(e), node_vars(e),
             bare if bare[0] == "ok" else bare[1])
 
@@ -86,7 +86,7 @@ def check_cases(cases: list[dict], rep: Report, known: dict) -> None:
                 # the Point handed to the operation is an operand too (also when the operation failed)
                 pt, ptxt = hist.last_point
                 twin = wire.build_point(ptxt)
-                same = call(lambda: (pt == twin, repr(pt) == repr(twin), hash(pt) == hash(twin), len(pt._coordinates) == len(twin._coordinates)))
+                same = call(lambda: (pt == twin, repr(pt) == repr(twin), hash(pt) == hash(twin), len(wire.coords(pt)) == len(wire.coords(twin))))
                 if same != ("ok", (True, True, True, True)):
                     rep.violation(f"the Point passed to operation {k} ({op['op']}) was changed by it: now {pt!r}, written as {twin!r}",
                                   {"origin": c["origin"], "pool": c["pool"], "ops": done[:], "after_op": k})
